@@ -186,6 +186,10 @@ func renderSSA(d ssaDoc, r ssaRendering) []byte {
 		emit("Last Style Storage: Default")
 		emit("Dialogue: not, an, event")
 		emit("junk without colon")
+		emit("; looks like a comment but belongs to an unknown section")
+		emit("Title: not the title")
+		emit("Format: Name, Fontname")
+		emit("Style: ghost,Arial")
 		emit("")
 	}
 	emit(r.InfoHeader)
@@ -231,6 +235,9 @@ func renderSSA(d ssaDoc, r ssaRendering) []byte {
 		emit("[Fonts]")
 		emit("fontname: x.ttf")
 		emit("M,5V:&H0>(=/!")
+		emit(";5V:uuencoded data may start with any character")
+		emit("Format: Layer, Start, End, Text")
+		emit("Dialogue: 0,0:00:00.00,0:00:01.00,not an event")
 		emit("")
 	}
 	emit(r.EventsHeader)
